@@ -50,3 +50,12 @@ Print Assumptions pad_preserves_frames.
 
 Example pad_example : pad_frame_range (s2b "1,a,-2-5x2") 3 = s2b "001,a,-02-005x2".
 Proof. vm_compute. reflexivity. Qed.
+
+From GFS Require Import AuditProofs.
+
+(** all three component shapes: numbers already that wide leave the text unchanged *)
+Theorem wide_enough_components_are_unchanged : forall w p l, tcomp p = Some l -> numbers_wide w l ->
+  pad_comp w p = p /\ pad_part p w = p.
+Proof. exact pad_wide_enough_every_shape. Qed.
+Print Assumptions wide_enough_components_are_unchanged.
+
